@@ -45,7 +45,7 @@ func genIndexHistory(t *rapid.T) idxHistory {
 	if rapid.IntRange(0, 3).Draw(t, "smallpool") == 0 {
 		maxEdges = 40
 	}
-	pool := drawPool(t, "pool", 6, maxEdges)
+	pool := drawPoolWithEmpties(t, "pool", 6, maxEdges)
 	verts := allVerts(pool)
 	n := rapid.IntRange(3, maxOps).Draw(t, "nops")
 	h := idxHistory{Pool: pool}
